@@ -90,3 +90,8 @@ func boolTok(b bool) string {
 	}
 	return "0"
 }
+
+// sliceError is an error whose dynamic type cannot be hashed (map keys, == on interfaces holding it panic).
+type sliceError []string
+
+func (e sliceError) Error() string { return strings.Join(e, " ") }
